@@ -319,6 +319,45 @@ def get_pts_def() -> str:
             f"def get_pts (pts : List (SRat × SRat)) : List Char :=\n  strJoin {chars(sep)} (pts.map ptStr)\n")
 
 
+def colourspace_names() -> str:
+    """Every name a PDFColorSpace can carry (what `item.ncs.name` writes into colourspace="…"): the literal list the
+    loop in pdfcolor.py builds PREDEFINED_COLORSPACE from + the names get_colorspace (pdfinterp.py) compares with
+    before constructing a PDFColorSpace(name, …) itself."""
+    mod = P.parse_file("pdfminer/pdfcolor.py")
+    names: List[str] = []
+    loops = [n for n in mod.body if isinstance(n, ast.For)]
+    for lp in loops:
+        if "PREDEFINED_COLORSPACE[name] = PDFColorSpace(name, n)" in ast.unparse(lp):
+            if not isinstance(lp.iter, ast.List):
+                raise P.Untranslatable("PREDEFINED_COLORSPACE is not built from a list literal")
+            for e in lp.iter.elts:
+                if not (isinstance(e, ast.Tuple) and isinstance(e.elts[0], ast.Constant) and isinstance(e.elts[0].value, str)):
+                    raise P.Untranslatable("PREDEFINED_COLORSPACE entry: " + ast.unparse(e))
+                names.append(e.elts[0].value)
+    if not names:
+        raise P.Untranslatable("PREDEFINED_COLORSPACE loop not found")
+    if any("PDFColorSpace(" in ast.unparse(n) for n in ast.walk(mod)
+           if isinstance(n, ast.Call) and n not in [c for lp in loops for c in ast.walk(lp)]):
+        raise P.Untranslatable("pdfcolor.py constructs a PDFColorSpace outside the table loop")
+    imod = P.parse_file("pdfminer/pdfinterp.py")
+    extra: List[str] = []
+    for fn in ast.walk(imod):
+        if isinstance(fn, ast.FunctionDef) and fn.name == "get_colorspace":
+            for iff in ast.walk(fn):
+                if isinstance(iff, ast.If) and any(isinstance(c, ast.Call) and ast.unparse(c.func) == "PDFColorSpace"
+                                                   for st in iff.body for c in ast.walk(st)):
+                    cmp = [c for c in ast.walk(iff.test) if isinstance(c, ast.Compare) and ast.unparse(c.left) == "name"
+                           and len(c.ops) == 1 and isinstance(c.ops[0], ast.Eq) and isinstance(c.comparators[0], ast.Constant)]
+                    if len(cmp) != 1:
+                        raise P.Untranslatable("get_colorspace constructs a PDFColorSpace for a name that is not fixed")
+                    extra.append(cmp[0].comparators[0].value)
+    src = ast.unparse(imod)
+    if src.count("PDFColorSpace(") != len(extra):
+        raise P.Untranslatable("pdfinterp.py constructs PDFColorSpace objects outside get_colorspace's fixed names")
+    return ("/-- every `PDFColorSpace.name` (pdfcolor.PREDEFINED_COLORSPACE + the fixed names of pdfinterp.get_colorspace) -/\n"
+            "def colourSpaceNames : List (List Char) :=\n  [" + ",\n   ".join(chars(n) for n in names + extra) + "]\n")
+
+
 def generate(lean_dir: str):
     mod = P.parse_file("pdfminer/converter.py")
     ranges = control_ranges(mod)
@@ -358,9 +397,9 @@ def generate(lean_dir: str):
            "\nend PdfVerif.Gen.ConvertXml\n")
     p2 = os.path.join(lean_dir, "PdfVerif", "Gen", "ConvertXml.lean")
     P.write_if_changed(p2, xml)
-    fmt = ("/-\n  GENERATED by /verif/tools/translate/gen_c11.py on every run from pdfminer/utils.py (bbox2str)\n  and pdfminer/layout.py (LTCurve.get_pts).\n"
+    fmt = ("/-\n  GENERATED by /verif/tools/translate/gen_c11.py on every run from pdfminer/utils.py (bbox2str)\n  and pdfminer/layout.py (LTCurve.get_pts), pdfminer/pdfcolor.py + pdfinterp.py (colour-space names).\n"
            "  Do not edit.\n-/\nimport PdfVerif.Model.Format\n\nnamespace PdfVerif.Gen.ConvertFmt\nopen PdfVerif.Convert\n\n"
-           + bbox2str_def() + "\n" + get_pts_def() + "\nend PdfVerif.Gen.ConvertFmt\n")
+           + bbox2str_def() + "\n" + get_pts_def() + "\n" + colourspace_names() + "\nend PdfVerif.Gen.ConvertFmt\n")
     p3 = os.path.join(lean_dir, "PdfVerif", "Gen", "ConvertFmt.lean")
     P.write_if_changed(p3, fmt)
     return [p1, p2, p3]
